@@ -446,6 +446,8 @@ pub fn gen_rule(d: &Data, r: &mut Rng) -> String {
                 &[
                     // multi-rules whose sub-rules feed each other: the order of application matters
                     "a, e > e, i",
+                    "a, e, a > e, i, e",
+                    "a, e, i, o, a > e, i, o, u, e",
                     "p, b > b, v",
                     "i, u > e, i / _#",
                     "t, d > d, ð / V_V",
@@ -512,7 +514,7 @@ pub const ALIAS_INTO: [&str; 10] = [
     "@{acute} > [+stress]",
     "ng > ŋ",
 ];
-pub const ALIAS_FROM: [&str; 10] = [
+pub const ALIAS_FROM: [&str; 12] = [
     "ʃ, a:[+str], $ > sh, á, *",
     "ʃ:[+long], a:[+str, +long], t:[+long], $ > ssh, â, tt, *",
     "ka, ta, na, $ > カ, タ, ナ, *",
@@ -523,6 +525,8 @@ pub const ALIAS_FROM: [&str; 10] = [
     "j > y",
     "C:[+hi, -bk] => +@{acute}",
     "C => +@{macron}",
+    "a:[tone: 55] > á",
+    "V:[tone: 51] => +@{grave}",
 ];
 
 pub fn gen_aliases_with_doc(d: &Data, r: &mut Rng) -> (Vec<String>, Vec<String>) {
@@ -741,6 +745,27 @@ pub fn modifier_family(r: &mut Rng) -> Vec<Call> {
     ];
     r.shuffle(&mut v);
     v
+}
+
+/// toned words romanised by an alias that reads a tone: some words carry the tone the alias
+/// consumes, others a tone it leaves alone
+pub fn tone_alias_call(r: &mut Rng) -> Call {
+    let (alias, t1) = *r.pick(&[("a:[tone: 55] > á", "55"), ("V:[tone: 51] => +@{grave}", "51"), ("a:[tone: 214] > ǎ", "214")][..]);
+    let other = ["51", "35", "55", "214", "5"];
+    let n = r.range(2, 4);
+    let mut words: Vec<String> = Vec::new();
+    for _ in 0..n {
+        let c: &str = *r.pick(&["t", "k", "m", "s", "p"][..]);
+        let tone: &str = if r.chance(1, 2) { t1 } else { *r.pick(&other[..]) };
+        let mut w = format!("{c}a{tone}");
+        if r.chance(1, 3) {
+            let c2: &str = *r.pick(&["n", "l", "t"][..]);
+            let tone2: &str = *r.pick(&other[..]);
+            w.push_str(&format!(".{c2}a{tone2}"));
+        }
+        words.push(w);
+    }
+    Call { kind: "run".into(), rules: vec![], words, into: vec![], from: vec![alias.to_string()] }
 }
 
 /// corpus cross product sample: a test rule applied to a handful of test words
